@@ -208,3 +208,70 @@ func TestKvcBoundedRewrite(t *testing.T) {
 	}
 	t.Logf("%d expressions x %d pairs", len(exprs), len(pairs))
 }
+
+// TestKvcBoundedRewriteText: the same comparison for text: every `+` chain of up to four operands
+// over text literals, key / value and text-valued calls, in all five parenthesisations, before and
+// after the expression optimizer (concatenation does not commute: constants may only be merged
+// with their neighbours).
+func TestKvcBoundedRewriteText(t *testing.T) {
+	leaves := []string{"'a'", "'b'", "key", "upper(value)", "str(int(value))", "lower(key)"}
+	var exprs []string
+	for _, a := range leaves {
+		for _, b := range leaves {
+			exprs = append(exprs, a+" + "+b)
+			for _, c := range leaves {
+				exprs = append(exprs, a+" + "+b+" + "+c, a+" + ("+b+" + "+c+")")
+				for _, d := range leaves {
+					exprs = append(exprs,
+						"(("+a+" + "+b+") + "+c+") + "+d,
+						"("+a+" + ("+b+" + "+c+")) + "+d,
+						"("+a+" + "+b+") + ("+c+" + "+d+")",
+						a+" + (("+b+" + "+c+") + "+d+")",
+						a+" + ("+b+" + ("+c+" + "+d+"))")
+				}
+			}
+		}
+	}
+	show := func(v any) string {
+		switch b := v.(type) {
+		case []byte:
+			return "text:" + string(b)
+		case string:
+			return "text:" + b // (both representations of a text value occur)
+		}
+		return fmt.Sprintf("%T:%v", v, v)
+	}
+	pairs := []KVPair{NewKVP([]byte("k1"), []byte("7")), NewKVP([]byte(""), []byte("0")), NewKVP([]byte("Key"), []byte("-12"))}
+	bad, n := 0, 0
+	for _, src := range exprs {
+		q := "select " + src + " where true = true"
+		orig, _, err := BuildExecutor(q)
+		if err != nil {
+			continue
+		}
+		again, _, _ := BuildExecutor(q)
+		eo := ExpressionOptimizer{Root: again.Fields[0]}
+		rewritten := eo.Optimize()
+		n++
+		for _, kv := range pairs {
+			want, err := orig.Fields[0].Execute(kv, nil)
+			if err != nil {
+				continue
+			}
+			got, err := rewritten.Execute(kv, nil)
+			if err != nil || show(got) != show(want) {
+				bad++
+				if bad <= 5 {
+					t.Errorf("%q on (%s, %s): original gives %s, rewritten %s gives %s %v", src, kv.Key, kv.Value, show(want), rewritten, show(got), err)
+				}
+			}
+		}
+	}
+	if n < 5000 {
+		t.Errorf("only %d expressions were accepted", n)
+	}
+	if bad > 5 {
+		t.Errorf("... %d mismatches in all (%d expressions)", bad, n)
+	}
+	t.Logf("%d expressions x %d pairs", n, len(pairs))
+}
